@@ -98,7 +98,7 @@ int main(int argc, char **argv) {
     std::unique_ptr<vg::BlobUniverse> blob;
     if (A.has("grammar")) { auto t = vr::split(A.get("grammar"), ':'); blob.reset(new vg::BlobUniverse(atoi(t[1].c_str()), atoi(t[2].c_str()))); }
     uint64_t total_units = blob ? blob->size() : fams.empty() ? vg::num_graphs(n) : fams.size();
-    int max_m = (int) A.geti("max-m", 62);
+    int max_m = (int) A.geti("max-m", 62), min_m = (int) A.geti("min-m", 0);
     uint64_t seed = (uint64_t) A.geti("seed", 0);
 
     auto unit_graph = [&](uint64_t u) -> vg::EdgeList {
@@ -114,7 +114,7 @@ int main(int argc, char **argv) {
     };
     auto work = [&](uint64_t u, uint64_t start_sub) {
         vg::EdgeList el = unit_graph(u);
-        if (el.m() > max_m) { R.count(C_SKIPPED); return; }
+        if (el.m() > max_m || el.m() < min_m) { R.count(C_SKIPPED); return; }
         int dim = vg::cycle_space_dim(el);
         auto cyc = vg::all_simple_cycles(el);
         uint64_t nw = vg::ipow(alpha.size(), el.m());
